@@ -107,7 +107,17 @@ var injectedErrNames = []string{"plain", "insufficient-funds", "unauthorized", "
 // errClass selects the class for the plan in force (one worker process runs one simulation at a time).
 var errClass int
 
+// storeErrOverride, when set, is what a failing store call returns (classes that only make sense for the store).
+var storeErrOverride error
+
 func injErr() error { return injectedErrClasses[errClass%len(injectedErrClasses)] }
+
+func storeErr() error {
+	if storeErrOverride != nil {
+		return storeErrOverride
+	}
+	return injErr()
+}
 
 
 type ModeB struct {
@@ -152,14 +162,14 @@ func storeSite(op string, key []byte) string {
 
 func (s fStore) Get(key []byte) ([]byte, error) {
 	if s.p.Store && s.p.hit(storeSite("Get", key), nil) != faultNone {
-		return nil, injErr()
+		return nil, storeErr()
 	}
 	return s.inner.Get(key)
 }
 
 func (s fStore) Has(key []byte) (bool, error) {
 	if s.p.Store && s.p.hit(storeSite("Has", key), nil) != faultNone {
-		return false, injErr()
+		return false, storeErr()
 	}
 	return s.inner.Has(key)
 }
@@ -170,11 +180,11 @@ func (s fStore) Set(key, value []byte) error {
 		m = s.p.hit(storeSite("Set", key), nil)
 	}
 	if m == faultBefore {
-		return injErr()
+		return storeErr()
 	}
 	err := s.inner.Set(key, value)
 	if m == faultAfter {
-		return injErr() // the write reached the store, its acknowledgement was lost
+		return storeErr() // the write reached the store, its acknowledgement was lost
 	}
 	return err
 }
@@ -185,25 +195,25 @@ func (s fStore) Delete(key []byte) error {
 		m = s.p.hit(storeSite("Delete", key), nil)
 	}
 	if m == faultBefore {
-		return injErr()
+		return storeErr()
 	}
 	err := s.inner.Delete(key)
 	if m == faultAfter {
-		return injErr()
+		return storeErr()
 	}
 	return err
 }
 
 func (s fStore) Iterator(start, end []byte) (corestore.Iterator, error) {
 	if s.p.Store && s.p.hit(storeSite("Iterator", start), nil) != faultNone {
-		return nil, injErr()
+		return nil, storeErr()
 	}
 	return s.inner.Iterator(start, end)
 }
 
 func (s fStore) ReverseIterator(start, end []byte) (corestore.Iterator, error) {
 	if s.p.Store && s.p.hit(storeSite("ReverseIterator", start), nil) != faultNone {
-		return nil, injErr()
+		return nil, storeErr()
 	}
 	return s.inner.ReverseIterator(start, end)
 }
